@@ -1,4 +1,4 @@
-\* MC_GoChannel_u_guardonly.cfg2
+\* unbuffered, patched guard WITHOUT the sender-turn mutex: must still fail (the patch is minimal)
 SPECIFICATION Spec
 CONSTANTS
   Cap = 0
